@@ -8,9 +8,11 @@ import Mieru.Gen.UdpFacts
 Stated over every reachable state of `Mieru.Model.Arq` (all fault schedules and timings of C02),
 and about the complete history of what was ever emitted (`sent`, `acked`), not just what is in
 flight. Tie to the code: `Mieru.Gen.Facts` (every assignment to an `unAckSeq` field has right-hand
-side `s.nextRecv.Load()`; `nextRecv` advances at one site) and the wire monitor of
-harness/props/c13.go, which decodes every datagram of every UDP run and compares each cumulative
-ack with the set of datagrams the network had handed to its emitter so far.
+side `s.nextRecv.Load()`; `nextRecv` advances at one site), `Mieru.Gen.UdpFacts` (every content write, the
+retransmission closure, the release guards), the wire monitor (harness/sim/udpmon.go, driven by the C13
+scenario in harness/props/c02.go), which decodes every datagram of every UDP run and compares each
+cumulative ack with the set of datagrams the network had handed to its emitter so far, the live sampler of
+both endpoints' window state (harness/sim/observe.go) and the container stage (harness/props/c13_tree.go).
 By definition outside the numbering invariant (excluded by type): pure acks carry `seq = nextSend−1`
 and close requests generated on error carry `seq = nextSend`.
 -/
